@@ -130,6 +130,10 @@ pub const F_SCALE: u16 = 1024;
 pub const F_UNREACHABLE: u16 = 2048;
 pub const F_TOURSIZE: u16 = 4096;
 pub const F_LATEST: u16 = 8192;
+/// the first place of a multi-place task carries no tag
+pub const F_UNTAGGED: u16 = 16384;
+/// long-tour class (set only by `long_spec`): capacities x20, shift lengths x40
+pub const F_LONG: u16 = 32768;
 
 fn place_spec(nloc: u16) -> impl Strategy<Value = PlaceSpec> {
     (0..nloc, prop_oneof![Just(0u8), Just(5), Just(10), Just(30)], prop::collection::vec((0u16..200, 10u16..300), 0..=3)).prop_map(|(loc, duration, windows)| PlaceSpec { loc, duration, windows })
@@ -190,13 +194,35 @@ fn vehicle_spec(nloc: u16, dims: usize) -> impl Strategy<Value = VehicleSpec> {
 }
 
 pub fn problem_spec(max_jobs: usize) -> impl Strategy<Value = ProblemSpec> {
+    problem_spec_sized(1, max_jobs)
+}
+
+/// Long-tour class: 30-45 jobs served by a single vehicle shift with ample capacity and time, so that tours reach the
+/// sizes where leg sampling and similar size-dependent code paths switch on.
+pub fn long_spec() -> impl Strategy<Value = ProblemSpec> {
+    problem_spec_sized(30, 45).prop_map(|mut s| {
+        s.features = (s.features & (F_MULTI | F_VALUE | F_UNTAGGED | F_LATEST)) | F_LONG;
+        s.vehicles.truncate(1);
+        s.vehicles[0].ids = 1;
+        s.vehicles[0].shifts.truncate(1);
+        s.unreachable.clear();
+        s
+    })
+}
+
+/// Mostly small problems, every 20th case one of the long-tour class.
+pub fn mixed_spec(max_jobs: usize) -> impl Strategy<Value = ProblemSpec> {
+    prop_oneof![19 => problem_spec(max_jobs).boxed(), 1 => long_spec().boxed()]
+}
+
+pub fn problem_spec_sized(min_jobs: usize, max_jobs: usize) -> impl Strategy<Value = ProblemSpec> {
     (3u16..=9, 1usize..=2, 1u8..=2).prop_flat_map(move |(nloc, dims, profiles)| {
         (
             prop::collection::vec((0u8..30, 0u8..30), nloc as usize),
             prop::collection::vec(0u8..6, (nloc * nloc) as usize),
             prop::bool::weighted(0.2),
             prop::collection::vec(any::<u16>(), 0..3),
-            prop::collection::vec(job_spec(nloc, dims), 1..=max_jobs),
+            prop::collection::vec(job_spec(nloc, dims), min_jobs..=max_jobs),
             prop::collection::vec(vehicle_spec(nloc, dims), 1..=3),
             0u8..17,
             4u8..30,
@@ -213,8 +239,8 @@ pub fn problem_spec(max_jobs: usize) -> impl Strategy<Value = ProblemSpec> {
                 vehicles,
                 objectives,
                 shared_resource_capacity,
-                // each feature on with probability 1/2 except a few made rarer by and-ing two bits
-                features,
+                // each feature on with probability 1/2 (the long-tour class is a generator of its own)
+                features: features & !F_LONG,
             })
     })
 }
@@ -328,7 +354,12 @@ pub fn render(spec: &ProblemSpec) -> Rendered {
         }
     };
 
-    let max_cap: Vec<i32> = (0..dims).map(|d| spec.vehicles.iter().map(|v| v.capacity[d] as i32).max().unwrap_or(1)).collect();
+    let long = f & F_LONG != 0;
+    let cap_mul = if long { 20 } else { 1 };
+    if long {
+        feat("long_tour_class");
+    }
+    let max_cap: Vec<i32> = (0..dims).map(|d| spec.vehicles.iter().map(|v| v.capacity[d] as i32 * cap_mul).max().unwrap_or(1)).collect();
 
     // ---- jobs
     let mut jobs = vec![];
@@ -355,7 +386,8 @@ pub fn render(spec: &ProblemSpec) -> Rendered {
                         location: loc(p.loc as usize % n),
                         duration: p.duration as f64,
                         times: windows_of(p, f & F_WINDOWS != 0),
-                        tag: Some(format!("{id}_t{ti}_p{pi}")),
+                        // the documentation asks for tags only where places have to be told apart: leave the first of several untagged
+                        tag: (!(f & F_UNTAGGED != 0 && count > 1 && pi == 0)).then(|| format!("{id}_t{ti}_p{pi}")),
                     })
                     .collect(),
                 demand,
@@ -363,6 +395,9 @@ pub fn render(spec: &ProblemSpec) -> Rendered {
             }
         };
         let multi_places = f & F_MULTI != 0;
+        if multi_places && f & F_UNTAGGED != 0 && j.places.iter().any(|p| p.len() > 1) {
+            feat("untagged_first_place");
+        }
         let order = (f & F_ORDER != 0 && j.order > 0 && j.order <= 3).then_some(j.order as i32);
         if order.is_some() && matches!(j.kind, JobKind::Delivery | JobKind::Pickup | JobKind::Service | JobKind::Replacement | JobKind::PickupDelivery) || (order.is_some() && f & F_MULTI == 0) {
             any_order = true;
@@ -476,7 +511,7 @@ pub fn render(spec: &ProblemSpec) -> Rendered {
         let mut day_start = 0i64;
         for (si, s) in v.shifts.iter().enumerate() {
             let earliest = day_start + s.earliest as i64;
-            let end_latest = earliest + s.length as i64;
+            let end_latest = earliest + s.length as i64 * if long { 40 } else { 1 };
             let latest = match (f & F_LATEST != 0, s.latest) {
                 (false, _) | (_, 0) => None,
                 (_, 1) => Some(earliest),
@@ -586,7 +621,7 @@ pub fn render(spec: &ProblemSpec) -> Rendered {
             profile: api::VehicleProfile { matrix: PROFILE_NAMES[profile].to_string(), scale },
             costs: api::VehicleCosts { fixed: (v.fixed > 0).then_some(v.fixed as f64), distance: cd, time: ct },
             shifts,
-            capacity: v.capacity.iter().map(|c| *c as i32).collect(),
+            capacity: v.capacity.iter().map(|c| *c as i32 * cap_mul).collect(),
             skills,
             limits,
         });
